@@ -673,11 +673,20 @@ void World::deliver(InFlight& f)
         probe("receive-buffer-shared-between-threads");
     }
 #endif
+    // One delivery in four sits at an odd / unaligned address (a frame inside a larger capture buffer): the END of the
+    // block is still exact (ASan sees every read past it), 1..7 addressable bytes lie in front of it.
+    size_t misalign = 0;
+    uint8_t* block = nullptr;
     if (!sharedBuf)
     {
-        buf = new uint8_t[n ? n : 1];
+        const uint64_t mr = mix64(res.deliveries * 0x9E3779B97F4A7C15ULL + n);
+        misalign = (mr & 3) == 0 ? 1 + ((mr >> 2) % 7) : 0;
+        block = new uint8_t[(n ? n : 1) + misalign];
+        buf = block + misalign;
         if (n)
             memcpy(buf, f.bytes.data(), n);
+        if (misalign)
+            probe("receive-buffer-at-unaligned-address");
     }
     const bool passNull = (n == 0 && plan.cfgGet("nullbuf", 0));
     std::vector<lib::PacketRef> out = dec->decode(passNull ? nullptr : buf, n, f.allocFail);
@@ -714,7 +723,7 @@ void World::deliver(InFlight& f)
     }
     const bool written = n && memcmp(buf, f.bytes.data(), n) != 0;
     if (!sharedBuf)
-        delete[] buf;
+        delete[] block;
     if (written && is("C02"))
         violate("mem.input-written", "decode modified its input buffer");
 
